@@ -87,6 +87,11 @@ LEVELS = {
         "note": "trusted: syntactic effect translator, Go race detector; scheduler behaviour is not provable in this technique (partial)",
         "technique": "Coq-checked Tie over source-generated effect tables (finite computation) + race-detector correspondence rounds",
     },
+    "C09": {
+        "text": "Coq: marshalling is deterministic (inlineFriendlyMarshalJSON gives the same JSON for every order of the inline map and of the field map, theorem over all contents); the re-read of marshalled JSON (objects as ordered maps, integral tokens re-typed) is modelled and the JSON-leg fixpoint is executed in the model and compared with the library on every generated document (first and second generation JSON); fixpoint example and the excluded class (empty key/label with a surviving alias, known finding F17) by computation; general fixpoint theorems in Proofs/ReparseProofs.v as far as listed in the evidence. Both legs, the stand-alone decoders and byte-identical repeated marshalling are checked by oracle on the implementation.",
+        "note": "trusted: text layer; known findings F7 (key `<<` through yaml.v3's emitter) and F17 are reported as KNOWN-FINDING",
+        "technique": "Coq proof: permutation-invariance of the marshal model + model-executed re-parse in the correspondence; oracle on both legs",
+    },
 }
 
 REASONS_PENDING = "check not built yet in this revision (work in progress; see DESIGN.md §10 build order)"
